@@ -514,10 +514,17 @@ def gotoloop_rule(P, R, mt):
             return None
         # gates: cond atoms of an If with a branch that never completes
         gate_conds = set()
+        weak_gates = []
         for x in T.walk(f["body"]):
             if x[0] == "If" and T.is_node(x[3]):
                 for br in (x[3], x[4]):
                     if T.is_node(br) and not any(y[0] in ("Goto", "Return", "Break", "Continue") for y in T.walk(br)) and never_completes(br, f, mt):
+                        # a budget test must be an inequality: `counter == bound` is stepped over when the bound (an unvalidated
+                        # input such as -bad_step_max 0) lies below the counter's first value
+                        c0 = T.strip_casts(x[2])
+                        if c0[0] == "Bin" and c0[2] in ("==", "!=") and any(y[0] == "Un" and y[2] in ("pre++", "post++", "++") for y in T.walk(c0)):
+                            weak_gates.append(x)
+                            continue
                         gate_conds.add(id(x[2]))
         by_label = {}
         for g in gotos:
@@ -619,13 +626,39 @@ def gotoloop_rule(P, R, mt):
                     R.info.setdefault("redundant_exemption_rows", []).append("C08.gotoloop:" + row)
                     R.ok(RULE, inst, "budgeted (exemption row is redundant)")
                 continue
-            if bad:
+            if bad and weak_gates:
+                R.violation(RULE, inst, "the only budget test on the cycle closed by `goto %s` is the equality `%s` (line %d): the incremented counter steps over a bound that lies below "
+                            "its first value (the bound is read from the input without a range check), and the call never returns"
+                            % (lab, T.text(weak_gates[0][2])[:70], weak_gates[0][1]), file=f["file"], line=weak_gates[0][1], function=f["q"])
+            elif bad:
                 R.violation(RULE, inst, "the cycle closed by `goto %s` (line%s %s) has a path from the label (line %d) back to the goto without any iteration budget: no gate ending in a "
                             "STOP error, no tested counter, no falsified guard - for an input that keeps the goto's condition true the call never returns"
                             % (lab, "s" if len(bad) > 1 else "", ", ".join(str(b[1]) for b in bad[:6]) + (" ..." if len(bad) > 6 else ""), labnode[1]),
                             file=f["file"], line=bad[0][1], function=f["q"])
             else:
                 R.ok(RULE, inst, "%d backward goto(s); budget: %s" % (len(gs), "; ".join(sorted(why))[:120]))
+    # budget gates anywhere (also inside while loops): `if (++counter <op> bound) STOP` must be an inequality
+    ngate = 0
+    for key, f in sorted(P.functions.items()):
+        if not f.get("body") or not f["q"].startswith("Phreeqc::"):
+            continue
+        for x in T.walk(f["body"]):
+            if x[0] != "If" or not T.is_node(x[3]):
+                continue
+            c0 = T.strip_casts(x[2])
+            if not (c0[0] == "Bin" and c0[2] in ("==", "!=", "<", "<=", ">", ">=") and any(y[0] == "Un" and y[2] in ("pre++", "post++", "++") for y in T.walk(c0))):
+                continue
+            if not any(T.callee_name(c) == "error_msg" for c in T.calls(x[3])):
+                continue
+            ngate += 1
+            inst = "%s:budget@%d" % (f["q"].split("::")[-1], x[1])
+            if c0[2] in ("==", "!="):
+                R.violation(RULE, inst, "the iteration budget `%s` is an equality: the incremented counter steps over a bound that lies below its first value (bounds such as "
+                            "-bad_step_max are read without a range check), the STOP error is never raised and the retry loop does not end" % T.text(c0)[:70],
+                            file=f["file"], line=x[1], function=f["q"])
+            else:
+                R.ok(RULE, inst, "inequality `%s`" % T.text(c0)[:50])
+    R.info["C08.gotoloop budget gates"] = ngate
     for row in exempt:
         if row not in used:
             R.anchor_missing(RULE, "exemption row `%s` names a cycle that no longer exists" % row)
